@@ -149,7 +149,8 @@ CHECKS = {
         technique="explicit-state BFS over store operation histories on both real backends (etcd stores over fakeetcd, MySQL stores over fakesql) with full-dump frame-condition oracle and fault enumeration over DeleteTask round trips",
         text="The real etcd and MySQL metadata stores, driven through the real meta_op.go functions, share one backend between several root paths; every operation history up to the depth bound over prefix-sharing and pattern-character identifiers is executed and the full backend dump is diffed after every operation (only the addressed record may change; inside a checkpoint only the addressed channel; dropped entries never; reads return own records only); DeleteTask is run with a failure injected at every backend round trip and must be all-or-nothing.",
         note="fakesql implements exactly the statement shapes of mysql.go (unknown SQL is an error), LIKE with % and _, binary string comparison (MySQL's case-insensitive default collation is not modelled: the check demands less). fakeetcd is a model of etcd Get/Put/Delete/Txn; conformance against embedded etcd is a thorough-tier part.",
-        parts=[part("isolation", "server", "store", "TestVerifC12Isolation", shards=(8, 16), budget=(150, 900))],
+        parts=[part("isolation", "server", "store", "TestVerifC12Isolation", shards=(8, 16), budget=(150, 900)),
+               part("etcd-conformance", "core", "verifkit/fakeetcd", "TestVerifEtcdConformance", shards=(4, 16), budget=(150, 900))],
     ),
     "C05": dict(
         level="fault_enumeration", engine="sched",
